@@ -45,6 +45,9 @@ type Contract struct {
 	Implements []string
 	ClosureInv []*Clause
 	FreeReq    []*Clause // requires over free variables of a closure (established at creation)
+	TrustedEns []*Clause // assumed by callers, not checked in the body (seams; listed in the evidence)
+	GhostEntry []*Clause
+	GhostExit  []*Clause
 }
 
 type GhostVar struct {
@@ -101,6 +104,9 @@ func LoadContracts(repo string) (*Contracts, error) {
 		}
 	}
 	cs.Files = files
+	if err := cs.inherit(); err != nil {
+		return nil, err
+	}
 	return cs, nil
 }
 
@@ -242,6 +248,21 @@ func (cs *Contracts) loadFile(path string) error {
 			cur.Requires = append(cur.Requires, cl)
 		case "ensures":
 			cur.Ensures = append(cur.Ensures, cl)
+		case "trusted-ensures":
+			cur.TrustedEns = append(cur.TrustedEns, cl)
+		case "ghost-entry", "ghost-exit":
+			// ghost-entry NAME = EXPR
+			eq := strings.Index(cl.Text, "=")
+			if eq < 0 {
+				return fmt.Errorf("%s: %s NAME = EXPR", where, kw)
+			}
+			cl.Name = strings.TrimSpace(cl.Text[:eq])
+			cl.Text = strings.TrimSpace(cl.Text[eq+1:])
+			if kw == "ghost-entry" {
+				cur.GhostEntry = append(cur.GhostEntry, cl)
+			} else {
+				cur.GhostExit = append(cur.GhostExit, cl)
+			}
 		case "ensures-on-panic":
 			cur.Panics = append(cur.Panics, cl)
 		case "assert":
@@ -344,11 +365,14 @@ func (cs *Contracts) ParseAll() error {
 		all = append(all, c.Asserts...)
 		all = append(all, c.ClosureInv...)
 		all = append(all, c.FreeReq...)
+		all = append(all, c.TrustedEns...)
+		all = append(all, c.GhostEntry...)
+		all = append(all, c.GhostExit...)
 		for _, l := range c.Loops {
 			all = append(all, l...)
 		}
 		for _, cl := range all {
-			if cl.Kind == "decreases" || cl.Kind == "invariant" || cl.Kind == "step" || cl.Kind == "requires" || cl.Kind == "ensures" || cl.Kind == "ensures-on-panic" || cl.Kind == "assert" || cl.Kind == "closure-invariant" || cl.Kind == "free-requires" {
+			if cl.Kind == "decreases" || cl.Kind == "invariant" || cl.Kind == "step" || cl.Kind == "requires" || cl.Kind == "ensures" || cl.Kind == "ensures-on-panic" || cl.Kind == "assert" || cl.Kind == "closure-invariant" || cl.Kind == "free-requires" || cl.Kind == "trusted-ensures" || cl.Kind == "ghost-entry" || cl.Kind == "ghost-exit" {
 				e, err := ParseExpr(cl.Text)
 				if err != nil {
 					return fmt.Errorf("%s: %v in %q", cl.Line, err, cl.Text)
@@ -427,4 +451,41 @@ func readSexp(s string, p int) (string, int) {
 		}
 	}
 	return s[p:], len(s)
+}
+
+// inherit copies the clauses of an iface/functype contract into the contracts that implement it.
+func (cs *Contracts) inherit() error {
+	for _, c := range cs.Order {
+		for k := 0; k+1 < len(c.Implements); k += 2 {
+			key := c.Implements[k] + " " + c.Implements[k+1]
+			base := cs.ByName[key]
+			if base == nil {
+				return fmt.Errorf("%s: implements unknown contract %q", c.File, key)
+			}
+			c.Requires = append(append([]*Clause(nil), base.Requires...), c.Requires...)
+			c.Ensures = append(append([]*Clause(nil), base.Ensures...), c.Ensures...)
+			c.Panics = append(append([]*Clause(nil), base.Panics...), c.Panics...)
+			if base.HasMod && !c.HasMod {
+				c.HasMod = true
+				c.Modifies = append(c.Modifies, base.Modifies...)
+			}
+			if base.Pure {
+				c.Pure = true
+			}
+			for _, o := range []string{"params", "results"} {
+				if _, ok := c.Opts[o]; !ok {
+					if v, ok := base.Opts[o]; ok {
+						c.Opts[o] = v
+					}
+				}
+			}
+			for _, u := range base.Uses {
+				c.Uses = append(c.Uses, u)
+			}
+			if len(c.Props) == 0 {
+				c.Props = base.Props
+			}
+		}
+	}
+	return nil
 }
